@@ -399,6 +399,45 @@ def task_filters(ctx, cfg):
         ctx.violation('f.filter_leaves_clock_untouched', dict(config=conf), {}, f'{name}: sim_time changed to {float(clock)}')
 
 
+def task_sw_trajectory(ctx, cfg, outer=2):
+  """Invariants along a multi-step shallow-water TRAJECTORY produced by the library's own builder (semi-implicit leapfrog, exponential and
+  Robert-Asselin filters, trajectory_from_step): in every saved frame the entries outside the truncation / at the top wavenumber are exactly
+  zero, and the global means of vorticity, divergence and layer thickness equal the (shared) means of the two starting time levels."""
+  from dinosaur import shallow_water as sw, coordinate_systems as cs, layer_coordinates as lc, scales
+  grid = grids.make_grid(cfg)
+  nl = 2
+  coords = cs.CoordinateSystem(grid, lc.LayerCoordinates(nl))
+  specs = sw.ShallowWaterSpecs(densities=np.array([1.0, 1.3]), radius=float(grid.radius), angular_velocity=1.0, gravity_acceleration=1.0, scale=scales.DEFAULT_SCALE)
+  base, zm = models.admissible_masks(grid)
+  rng = np.random.default_rng(19)
+  oro = rng.uniform(-0.2, 0.2, grid.modal_shape) * grid.mask              # un-clipped orography
+  dt = 0.05
+  traj = sw.shallow_water_leapfrog_trajectory(coords, dt, specs, inner_steps=1, outer_steps=outer, mean_potential=np.array([1.0, 1.6]), orography=oro,
+                                              filters=sw.default_filters(grid, dt), alpha=0.5)
+  ctx.encoded(sw.shallow_water_leapfrog_trajectory, sw.default_filters)
+  ms = (nl,) + grid.modal_shape
+  m, l = grid.modal_mesh
+  outside = (~grid.mask) | (l >= grid.total_wavenumbers - 1)
+  mean = (m == 0) & (l == 0)
+  sp = Space(bits=10)
+  b_ = np.broadcast_to
+  mk = lambda pre: [PolyArr.variables(sp, pre + 'v', ms, free=b_(zm, ms)), PolyArr.variables(sp, pre + 'd', ms, free=b_(zm, ms)), PolyArr.variables(sp, pre + 'p', ms, free=b_(zm, ms))]
+  pm = PolyArr.variables(sp, 'pmean', (nl,))         # shared global mean of the potential (layer thickness) of both time levels
+
+  def f(v0, d0, p0, v1, d1, p1, pm):
+    p0 = p0.at[:, 0, 0].set(pm); p1 = p1.at[:, 0, 0].set(pm)
+    _, fr = traj((sw.State(v0, d0, p0), sw.State(v1, d1, p1)))
+    ref = jnp.broadcast_to(p1[None], fr.potential.shape)
+    return (fr.vorticity, fr.divergence, fr.potential), (jnp.zeros_like(fr.vorticity), jnp.zeros_like(fr.divergence), ref)
+  args = mk('a') + mk('b') + [pm]
+  pre = harness.interpret(f, args, sp)
+  fshape = (outer,) + ms
+  conf = dict(grid=grids.cfg_name(cfg), frames=outer, dt=dt)
+  prove_close(ctx, 'sw.trajectory_frames_keep_truncation_zero', f, args, sp, select=[b_(outside, fshape)] * 3, exact=True, twin=False, config=conf, pre=pre)
+  prove_close(ctx, 'sw.trajectory_frames_conserve_mean_thickness_vorticity_divergence', f, args, sp, select=[b_(mean, fshape)] * 3, config=conf, pre=pre,
+              scale_floor=1.0, validate=False)
+
+
 def make_tasks(tier, seed):
   LS = models.level_sets(seed)
   cfg = dict(M=3, L=4, nlon=8, nlat=5)
@@ -415,6 +454,8 @@ def make_tasks(tier, seed):
   tasks.append(dict(name='filters-fast-padded', fn='task_filters', kw=dict(cfg=cfgf)))
   tasks.append(dict(name='sw', fn='task_sw', kw=dict(cfg=cfg)))
   tasks.append(dict(name='sw-fast', fn='task_sw', kw=dict(cfg=cfgf)))
+  tasks.append(dict(name='sw-trajectory', fn='task_sw_trajectory', kw=dict(cfg=dict(M=2, L=3, nlon=5, nlat=4))))
+  tasks.append(dict(name='sw-trajectory-fast-padded', fn='task_sw_trajectory', kw=dict(cfg=dict(M=2, L=3, nlon=6, nlat=4, impl='fast', base=4))))
   if tier != 'quick':
     cfg4 = dict(M=4, L=5, nlon=12, nlat=6)
     tasks.append(dict(name='operators-dry-M4', fn='task_operators', kw=dict(cfg=cfg4, levels=LS['dy3'].tolist(), lname='dy3', kind='dry')))
